@@ -102,6 +102,7 @@ inductive PanicSite
   | mapKeyFilterResult         -- eval_context.rs MapKeyFilter `_ => unreachable!()`
   | mapKeyMissing              -- `map.values.get(key).unwrap()`
   | regexUnwrap                -- path_value.rs PartialEq `is_match(..).unwrap()`
+  | floatOfInt                 -- model only: the `Env` float oracle has no entry for an integer's decimal form (`i as f64` cannot fail)
   | other
   deriving DecidableEq, Repr, Inhabited
 
